@@ -265,6 +265,8 @@ Inductive aclass :=
   | C_iter_commutative           (* a set iterated only into an order-insensitive accumulation *)
   | C_iter_idhash                (* a set whose elements hash by their seeded uuid (integer hash, not salted) *)
   | C_iter_set_order             (* a set of strings iterated into an ordered result *)
+  | C_private_gen                (* construction of / draw from a generator PRIVATE to a trace loader (Alibaba replay, bursty
+                                    Clockwork, ...): outside the modelled generator program, recorded with scope false *)
   | C_unclassified.
 
 Record asite := mkSite { a_file : Z; a_line : Z; a_class : aclass; a_scope : bool }.
